@@ -17,7 +17,7 @@ U_C18 == {
     RDecl(<<U1("a"), IntF("b", 2, FALSE, "little")>>, {46, 42, 10}, 3),
     \* signed integers fixed to negative values (bytes >= 128), either byte order
     RDecl(<<IntF("a", 1, TRUE, "default"), IntF("b", 2, TRUE, "little"), U1("z")>>, {0, 128, 255, 46}, 4),
-    RDecl(<<IntF("a", 2, TRUE, "big"), IntF("b", 3, TRUE, "default")>>, {1, 128, 255}, 5),
+    RDecl(<<IntF("a", 2, TRUE, "big"), IntF("b", 3, TRUE, "default")>>, {1, 255}, 5),
     RDecl(<<U1("a"), DataF("d", SzConst(2)), U1("z")>>, {91, 92, 1}, 4),
     RDecl(<<U1("a"), DataF("d", SzField("a")), U1("z")>>, {0, 1, 2, 36}, 4),
     RDecl(<<U1("a"), DataF("d", Defer(EBin("mul", EF("a"), EC(2)))), U1("z")>>, {0, 1, 124}, 4),
@@ -33,6 +33,12 @@ U_C18 == {
     RDecl(<<BitsF("h", 4), BitsF("l", 4), U1("z")>>, {0, 90, 165, 255, 91}, 2),
     RDecl(<<BitsF("p", 3), BitsF("q", 2), BitsF("r", 3)>>, {0, 37, 90, 165, 255, 92}, 1),
     RDecl(<<U1("a"), BitsF("h", 1), BitsF("m", 14), BitsF("l", 1)>>, {0, 1, 92, 255}, 3),
-    RDecl(<<BitsF("h", 6), BitsF("l", 10), DataF("d", SzConst(1))>>, {0, 45, 93, 255}, 3)
+    RDecl(<<BitsF("h", 6), BitsF("l", 10), DataF("d", SzConst(1))>>, {0, 45, 93, 255}, 3),
+    \* the last field is a byte string whose literal value may be empty
+    RDecl(<<U1("a"), DataF("d", SzField("a"))>>, {0, 1, 36}, 3),
+    RDecl(<<U1("a"), DataF("d", Defer(EBin("sub", EF("a"), EC(1))))>>, {1, 2, 46}, 3),
+    \* a little-endian class: integers follow it, bit groups do not
+    [RDecl(<<IntF("a", 2, FALSE, "default"), BitsF("h", 4), BitsF("l", 12), U1("z")>>, {1, 165}, 5)
+        EXCEPT !.prog = [C0 |-> Class([DefaultOpts EXCEPT !.endian = "little"], <<IntF("a", 2, FALSE, "default"), BitsF("h", 4), BitsF("l", 12), U1("z")>>)]]
 }
 =============================================================================
